@@ -308,7 +308,7 @@ def b_the(ex, st, node, args, kw):
 
 
 def b_bd_keys(ex, st, node, args, kw):
-    return VSeq(args[0].keys, S.Ballot if args[0].kelem == "ballot" else S.Seq(S.Str))
+    return VSeq(args[0].keys, {"ballot": S.Ballot, "strseq": S.Seq(S.Str), "rankseq": S.Seq(S.CSet)}[args[0].kelem])
 
 
 def b_bd_vals(ex, st, node, args, kw):
